@@ -40,9 +40,11 @@ def run_mode(ck, build, kinds, rulemap, helper_fns=True, floor_obl=300):
                     n += aeadlib.check_absorb_small(ck, mod, ks, label, rulemap)
                 except Broken as e:
                     ab_broken = e
+            snap = ck.snapshot()
             try:
                 n += aeadlib.check_absorb(ck, mod, ks, label, rulemap)
             except Broken as e:
+                ck.rollback(snap)
                 if not ck.violations:
                     raise
                 ck.note("per-class rule not decided for tinyjambu_absorb_%s: %s" % (ks, str(e)[:200]))
@@ -50,16 +52,18 @@ def run_mode(ck, build, kinds, rulemap, helper_fns=True, floor_obl=300):
     ck.floor("MODE", "cipher entry points analysed", len(fns), 6 * len(kinds))
     for f in fns:
         small_broken = None
-        if "SMALL" in rulemap or "SMALLIO" in rulemap:
+        if "SMALL" in rulemap or "SMALLIO" in rulemap or "SMALLMEM" in rulemap:
             # shape-independent: every message length up to 40 as straight paths (refutes whatever the loops look like)
             try:
                 n += aeadlib.check_cipher_small(ck, mod, f, label, rulemap)
             except Broken as e:
                 small_broken = e
         nviol = len(ck.violations)
+        snap = ck.snapshot()
         try:
             n += aeadlib.check_cipher(ck, mod, f, label, rulemap)
         except Broken as e:
+            ck.rollback(snap)
             if not ck.violations:
                 raise
             # the small-length rule (or a rule on another function) has refuted concrete cases; that the per-class rule does not follow this code's shape does not take them back
@@ -99,3 +103,21 @@ def fixture_control(ck, build, kinds, rulemap, fixture, wants, pair_rulemap=None
     got = {v["rule"] for v in sub.violations}
     for w in wants:
         ck.control("%s:%s" % (fixture, w), w in got, "rules violated on fixture: %s" % sorted(got))
+
+
+def nostate_rule(ck, build, rule, kinds, what):
+    """premise of every per-call rule: the result is a function of the arguments.  -> True if a writable global is referenced by a function
+    reachable from the entry points (the per-call summaries then say nothing about the property; the caller stops there)"""
+    from . import hashlib
+    mod = Module(build.facts("H", "N0"))
+    wg = hashlib.writable_globals_of(mod, lambda n_: bool(aeadlib.FN_RE.match(n_)) and aeadlib.FN_RE.match(n_).group(2) in kinds)
+    where = None
+    if wg:
+        g0 = [g for g in mod.globals if g["name"] in wg]
+        from ..facts import relpath
+        where = relpath("%s:%s" % (g0[0].get("file"), g0[0].get("line"))) if g0 and g0[0].get("file") else None
+    ck.rule(rule, "no function reachable from %s refers to a writable global or function-static object (whole call graph over direct calls): the result of a call depends on its arguments only, not on "
+            "earlier calls - the premise under which one call can be summarised at all (a transparent cache would be reported here too; it is C19's violation in any case)" % what)
+    ck.ob(not wg, rule, "(module)", "no-hidden-state[H/N0]", "none of the functions reachable from %s refers to writable global state" % what,
+          "functions reachable from %s refer to writable global / static object(s) %s: what a call returns can depend on the keys and data of earlier calls" % (what, sorted(wg)), where=where)
+    return bool(wg)
